@@ -167,8 +167,12 @@ type result struct {
 }
 
 // runSchedule executes one schedule. ops: 's' send, 'r' release, 'c' cancel.
-func runSchedule(r *rng.R, sync bool, maxOps int, viaReconciler bool) result {
+func runSchedule(r *rng.R, sync bool, maxOps int, viaReconciler bool, bigFirst int) result {
 	nFirst := r.Intn(4)
+	if bigFirst > 0 {
+		// a start-up batch larger than any plausible "idle capacity" of the double buffers
+		nFirst = bigFirst + r.Intn(64)
+	}
 	first := make(events.EventBatch, 0, nFirst)
 	firstInts := []int{}
 	next := 1
@@ -418,6 +422,7 @@ func Run(args []string) int {
 	n := fs.Int("n", 100, "number of schedules")
 	maxOps := fs.Int("maxops", 30, "max ops per schedule")
 	racy := fs.Bool("racy", false, "do not wait for acknowledgements (judge only)")
+	big := fs.Int("bigfirst", 0, "size of the start-up batch (large clusters); 0 = small random")
 	viaRec := fs.Bool("reconciler", false, "deliver events through the real controller.Reconciler (upserts and deletes)")
 	_ = fs.Parse(args)
 	r := rng.New(*seed)
@@ -425,7 +430,7 @@ func Run(args []string) int {
 	defer w.Flush()
 	anomalies := 0
 	for i := 0; i < *n && anomalies < 12; i++ {
-		res := runSchedule(r.Fork(), !*racy, *maxOps, *viaRec)
+		res := runSchedule(r.Fork(), !*racy, *maxOps, *viaRec, *big)
 		if res.inconclusive != "" && res.judge == "" {
 			anomalies++
 			fmt.Fprintf(w, "X %s\n", res.inconclusive)
